@@ -51,17 +51,21 @@ def check_swap_call(ctx, model, crate):
     # entry point names belief_price: compare with the dispatch in execute (same order as ExecuteMsg::Swap fields)
     # which request field each of the two Option<Decimal> parameters carries: resolve at every call site of swap
     names = {0: set(), 1: set()}
+    n_sites = 0
     for (cp, cb, ck) in model.callers().get(p, []):
         if ck != "call":
             continue
         cv = model.view(cp)
         ct = cv.blocks[cb]["t"]
+        n_sites += 1
         for pos in (0, 1):
             for o in a[pos]:
                 if o.kind == "param" and o.a - 1 < len(ct["args"]):
-                    for x in cv.origins_of_operand(ct["args"][o.a - 1], at=cv.at_term(cb)):
-                        if x.proj:
-                            names[pos].add(x.proj[-1])
+                    xs = cv.origins_of_operand(ct["args"][o.a - 1], at=cv.at_term(cb))
+                    # every entry path (direct message and cw20 hook) forwards the request's own limit: a constant
+                    # None here silently switches the check off for that path
+                    names[pos] |= {(x.proj[-1] if x.proj else "<%s>" % x.kind) for x in xs} or {"<nothing>"}
+    ctx.floor("C15-M1", "call sites of %s" % p, n_sites, 2)
     ctx.ob("C15-M1", "%s|belief-and-max-not-swapped" % p, names[0] == {"belief_price"} and names[1] == {"max_spread"},
            "assert_max_spread's belief_price argument carries the request's %s and its max_spread argument the request's %s" % (sorted(names[0]), sorted(names[1])), v.where(b))
     spec = HelperGuard("assert_max_spread(..)?", r"^white_whale_std::pool_network::swap::assert_max_spread$")
@@ -209,6 +213,18 @@ def check_slippage_tolerance(ctx, model, crate):
         after = [x for x in v.reach_strict(b) if any(True for _ in [0])]
         ctx.ob("C15-M3", "%s|tolerance-arg-and-propagation|bb" % p, ok and bool(edges),
                "tolerance argument from %s; error propagated with `?`: %s" % (sorted(map(repr, a0)), bool(edges)), v.where(b))
+    # the deposits handed to the check are in POOL order: element i is the amount found for pools[i]'s asset, and the
+    # pools argument is the pool list itself (checking caller-ordered amounts against pool-ordered reserves compares a
+    # ratio with its inverse whenever the caller lists the assets the other way round)
+    from .stablemath import deposit_pool_index
+    n = 2 if crate == "terraswap_pair" else 3
+    for b, t in calls:
+        got = [deposit_pool_index(v, model, t["args"][1], v.at_term(b), proj=("[%d]" % i,)) for i in range(n)]
+        want = [["[%d]" % i] for i in range(n)]
+        pools_o = arg_origins(v, b, t, 2)
+        ok_pools = bool(pools_o) and all(o.kind == "call" and o.a.endswith("query_pools") and not o.proj for o in pools_o)
+        ctx.ob("C15-M3", "%s|deposits-in-pool-order|bb%d" % (p, calls.index((b, t))), got == want and ok_pools,
+               "deposits[i] matched against pools%s (must be %s); pools argument from %s" % (got, want, sorted(map(repr, pools_o))), v.where(b))
     h = ctx.view("%s::helpers::assert_slippage_tolerance" % crate, "C15-M3")
     if h is not None:
         oks = ok_value_blocks(h)
